@@ -223,6 +223,11 @@ Definition codec_strategies (f: fmt) (usr: option smap) : smap :=
   | _ => match usr with Some u => u | None => [] end
   end.
 
+(* single point of contact with the field record of OptProj *)
+Definition mk_plan (name: string) (alias: option string) (is_optional: bool) (d: dflt) (trivial: bool) : fplan :=
+  {| p_name := name; p_alias := alias; p_ty := if is_optional then TyOptional else TyPlain;
+     p_trivial := trivial; p_default := d; p_omit := false |}.
+
 Section Values.
   Variable builtin : nat -> pv -> pv.           (* the built-in packer of a type *)
   Variable builtin_trivial : nat -> bool.       (* ... is the identity expression *)
@@ -238,13 +243,12 @@ Section Values.
   Definition eff_value (e: eff) (ty: nat) (raw: pv) : pv :=
     match e with EStrat 0 | EFun 0 => raw | EStrat n | EFun n => app n raw | ENone => builtin ty raw end.
 
-  Record fdecl := { d_plan : fplan; d_ty : nat }.
+  (* a field as the class declares it: its plan as a function of "the packer expression is the identity"
+     (which depends on the serializer in force), and its type identity.  The ONLY place where an
+     OptProj.fplan record is built is mk_plan below: nothing else here depends on the fields of fplan. *)
+  Record fdecl := { d_plan : bool -> fplan; d_ty : nat }.
 
-  Definition set_trivial (p: fplan) (t: bool) : fplan :=
-    {| p_name := p.(p_name); p_alias := p.(p_alias); p_tynull := p.(p_tynull); p_trivial := t;
-       p_default := p.(p_default); p_omit := p.(p_omit) |}.
-
-  Definition view_plan (m: smap) (d: fdecl) : fplan := set_trivial d.(d_plan) (eff_trivial (choice m d.(d_ty)) d.(d_ty)).
+  Definition view_plan (m: smap) (d: fdecl) : fplan := d.(d_plan) (eff_trivial (choice m d.(d_ty)) d.(d_ty)).
   Definition view_val (m: smap) (d: fdecl) (raw: pv) : fval :=
     (raw, if is_none raw then PNone else eff_value (choice m d.(d_ty)) d.(d_ty) raw).
 
@@ -329,8 +333,7 @@ End Values.
    datetime object itself, the basic codec its isoformat string (they meet only after orjson renders it) *)
 Definition w_builtin (ty: nat) (v: pv) : pv := PStr "2020-01-02T03:04:05".
 Definition w_decl : fdecl :=
-  {| d_plan := {| p_name := "dt"; p_alias := None; p_tynull := false; p_trivial := false; p_default := DNo; p_omit := false |};
-     d_ty := 1 |}.
+  {| d_plan := mk_plan "dt" None false DNo; d_ty := 1 |}.
 
 Lemma native_witness :
   codec_document w_builtin (fun _ => false) (fun _ v => v) (fun _ => ENone) FOrjson None None plain_opts [w_decl] [POpq 7]
